@@ -31,7 +31,7 @@ PROPS = {
                      # count bookkeeping of the operations that redirect or consume a handle (harnesses shared with C08 / C09)
                      {"module": "c08", "profiles": Q_DEV, "filters": ["c08::q_arc_make_mut", "c08::q_arc_make_unique", "c08::q_offset_make_mut"]},
                      {"module": "c09", "profiles": Q_DEV, "filters": ["c09::q_try_unwrap", "c09::q_unwrap_or_clone", "c09::q_try_unique"]}], "unwind": True},
-    "C03": {"kani": [{"module": "c03", "profiles": Q_DEV_T_BOTH}, funnel("funnel_get_unique", "funnel_try_from", "funnel_make_unique", "funnel_offset_make_mut", "funnel_thin_with_arc_mut_get_mut", "tv_get_mut", "tv_is_unique", "tv_try_unique", "tv_make_mut")], "wmm": True, "prepare": True, "unwind": True},
+    "C03": {"kani": [{"module": "c03", "profiles": Q_DEV_T_BOTH}, ponly("c03"), funnel("funnel_get_unique", "funnel_try_from", "funnel_make_unique", "funnel_offset_make_mut", "funnel_thin_with_arc_mut_get_mut", "tv_get_mut", "tv_is_unique", "tv_try_unique", "tv_make_mut")], "wmm": True, "prepare": True, "unwind": True},
     "C08": {"kani": [{"module": "c08", "profiles": Q_DEV_T_BOTH}, funnel("funnel_make_unique", "funnel_offset_make_mut", "tv_make_mut", "tv_is_unique")], "wmm": True, "prepare": True, "unwind": True},
     "C09": {"kani": [{"module": "c09", "profiles": Q_DEV_T_BOTH}, funnel("funnel_try_from", "tv_try_unwrap", "tv_unwrap_or_clone", "tv_try_unique", "tv_drop")], "wmm": True, "prepare": True,
             # every API that runs user code with a transient handle in flight: a reference released by an unwinding path is
